@@ -138,10 +138,50 @@ type entry struct {
 	files   int
 	idsFrom func(body []byte) (ids []uint32, ok bool)
 	noReq   bool // request id not fixed by the model (never for eUser/eExact with operator ids)
+	via     []*agentfx.Session // target is a pivot agent: the hops from the directly connected agent down to it (nil/len 1 = direct)
 	op      int  // index of the enqueueing operation (reporting)
 }
 
-func (e *entry) wireLen() int { return len(e.pre) + e.n }
+func (e *entry) wireLen() int { return len(e.pre) + e.n + e.wrapOverhead() }
+
+// wrapOverhead: every pivot hop wraps the task for the next one as a COMMAND_PIVOT task
+// [SMB_COMMAND][next id][bytes: pipe frame = [next id][size][cmd][req][len][body]]:
+// 12 + 8 + 12 bytes per hop.
+func (e *entry) wrapOverhead() int {
+	if len(e.via) < 2 {
+		return 0
+	}
+	return 32 * (len(e.via) - 1)
+}
+
+// unwrapFor reads a task taken at the first hop's check-in the way the hops of via do
+// (Command.c CommandPivot SMB_COMMAND: GetInt32 demon id, GetBytes data written to the child's
+// pipe; TransportSmb.c SmbRecv reads [demon id][size][payload] and drops a frame that is not
+// its own), each layer under that hop's key, down to the task the target executes.
+func unwrapFor(sub string, via []*agentfx.Session, t demonref.Task, opIdx int) (demonref.Task, *core.Violation) {
+	cur := t
+	for hop := 0; hop+1 < len(via); hop++ {
+		next := via[hop+1]
+		if cur.Cmd != demonref.CmdPivot {
+			return cur, core.V(sub+"|wrong-task|cmd", "a task for pivot agent %08x (depth %d, op %d) must arrive wrapped as COMMAND_PIVOT at hop %d; delivered command %d (req %#x)", via[len(via)-1].ID, len(via)-1, opIdx, hop, cur.Cmd, cur.ReqID)
+		}
+		d := &demonref.Dec{B: cur.Body}
+		sc, did, frame := d.Int32(), d.Int32(), d.Bytes()
+		if d.Err || d.Len() != 0 || sc != demonref.PivotSmbCmd || len(frame) < 8 {
+			return cur, core.V(sub+"|pivot|layer-malformed", "hop %d of the chain to %08x: pivot task is not [SMB_COMMAND][id][frame] (sub-command %d, %d frame bytes)", hop, via[len(via)-1].ID, sc, len(frame))
+		}
+		fid, fsz := binary.LittleEndian.Uint32(frame[0:4]), binary.LittleEndian.Uint32(frame[4:8])
+		if did != next.ID || fid != next.ID {
+			return cur, core.V(sub+"|pivot|next-hop-id", "hop %d of the chain to %08x: layer names demon %08x / frame %08x, the next hop is %08x", hop, via[len(via)-1].ID, did, fid, next.ID)
+		}
+		inner, ok := demonref.ReadTasks(frame[8:], next.Key, next.IV, 0, "")
+		if int(fsz) != len(frame)-8 || !ok || len(inner) != 1 {
+			return cur, core.V(sub+"|pivot|inner-framing", "hop %d of the chain to %08x: the frame does not hold exactly one task under the next hop's key (%d tasks)", hop, via[len(via)-1].ID, len(inner))
+		}
+		cur = inner[0]
+	}
+	return cur, nil
+}
 
 type agentModel struct {
 	sock  uint32 // socket id announced by the connect task (eConnect), 0 before
@@ -167,10 +207,10 @@ func (m *agentModel) nextHiUpper() (int, bool) {
 	case eExact, eUser, eConnect:
 		return e.wireLen() + 12, true
 	case eStream:
-		return 4 + 4 + 4 + len(e.content) - e.acc + 12, true
+		return 4 + 4 + 4 + len(e.content) - e.acc + 12 + e.wrapOverhead(), true
 	default:
 		rest := len(e.content) - e.acc
-		hi := 4 + 8 + 4 + rest + 12
+		hi := 4 + 8 + 4 + rest + 12 + e.wrapOverhead()
 		if rest == 0 && e.chunks > 0 && len(m.q) > 1 {
 			// the group may be complete: the next task is then the one after it
 			if h2 := m.q[1].wireLen() + 12; h2 > hi {
@@ -182,7 +222,7 @@ func (m *agentModel) nextHiUpper() (int, bool) {
 }
 
 func sameBody(got []byte, e *entry) bool {
-	if len(got) != e.wireLen() {
+	if len(got) != len(e.pre)+e.n {
 		return false
 	}
 	if !bytes.Equal(got[:len(e.pre)], e.pre) {
@@ -198,11 +238,19 @@ func sameBody(got []byte, e *entry) bool {
 // the smallest reading of its data size.  sub names the sub-check for signatures.
 func (m *agentModel) consume(sub string, t demonref.Task) (pure int, v *core.Violation) {
 	sub1 := sub
+	outer := t
 	for {
 		if len(m.q) == 0 {
-			return 0, core.V(sub+"|extra-task", "task cmd=%d req=%#x (%d body bytes) was delivered although the model queue is empty (delivered twice, or never queued); %d tasks matched before", t.Cmd, t.ReqID, len(t.Body), m.deliv)
+			return 0, core.V(sub+"|extra-task", "task cmd=%d req=%#x (%d body bytes) was delivered although the model queue is empty (delivered twice, or never queued); %d tasks matched before", outer.Cmd, outer.ReqID, len(outer.Body), m.deliv)
 		}
 		e := m.q[0]
+		t = outer
+		if len(e.via) > 1 {
+			var uv *core.Violation
+			if t, uv = unwrapFor(sub, e.via, outer, e.op); uv != nil {
+				return 0, uv
+			}
+		}
 		switch e.kind {
 		case eExact:
 			if t.Cmd != e.cmd {
@@ -351,27 +399,88 @@ func (m *agentModel) leftover() string {
 type world struct {
 	rec *tsx.Recorder
 	ep  *agentfx.Endpoint
-	ses []*agentfx.Session
-	mod []*agentModel
+	ses    []*agentfx.Session
+	mod    []*agentModel // the FIFO of agent g; only those of directly connected agents fill up
+	parent []int
 }
 
 func newWorld(agents int) (*world, error) {
+	var ids []uint32
+	var parents []int
+	for i := 0; i < agents; i++ {
+		ids = append(ids, 0x0a0b0001+uint32(i)*0x0101)
+		parents = append(parents, -1)
+	}
+	return newForest(ids, parents)
+}
+
+// newForest registers agent i with id ids[i]: directly through the endpoint when
+// parents[i] < 0, otherwise as an SMB child of agent parents[i] (< i) through the real
+// connect path - the parent's COMMAND_PIVOT / DEMON_PIVOT_SMB_CONNECT callback
+// [SMB_CONNECT][Success=1][bytes: the child's DEMON_INIT package], relayed hop by hop by
+// the parent's own ancestors (Pivot.c PivotPush: [SMB_COMMAND][bytes: child package]).
+func newForest(ids []uint32, parents []int) (*world, error) {
 	w := &world{rec: tsx.NewRecorder()}
 	ep, err := agentfx.Shared(w.rec)
 	if err != nil {
 		return nil, err
 	}
 	w.ep = ep
-	for i := 0; i < agents; i++ {
-		s, err := ep.Register(w.rec, 0x0a0b0001+uint32(i)*0x0101)
-		if err != nil {
-			return nil, err
-		}
-		w.ses = append(w.ses, s)
+	for i, id := range ids {
+		p := parents[i]
+		w.parent = append(w.parent, p)
 		w.mod = append(w.mod, &agentModel{})
+		if p < 0 {
+			s, err := ep.Register(w.rec, id)
+			if err != nil {
+				return nil, err
+			}
+			w.ses = append(w.ses, s)
+			continue
+		}
+		key, iv := agentfx.KeyFor(id)
+		init := agentfx.Meta(id).InitPackage(id, key, iv)
+		body := (&demonref.Enc{}).Int32(demonref.PivotSmbCon).Int32(1).Bytes(init).B
+		ch := w.chain(p)
+		pkg := demonref.Batch(ch[len(ch)-1].ID, 0, []demonref.Sub{{Cmd: demonref.CmdPivot, ReqID: 0, Body: body}}, ch[len(ch)-1].Key, ch[len(ch)-1].IV)
+		for j := len(ch) - 2; j >= 0; j-- {
+			b := (&demonref.Enc{}).Int32(demonref.PivotSmbCmd).Bytes(pkg).B
+			pkg = demonref.Batch(ch[j].ID, 0, []demonref.Sub{{Cmd: demonref.CmdPivot, ReqID: 0, Body: b}}, ch[j].Key, ch[j].IV)
+		}
+		code, _ := ep.Serve(pkg)
+		a := w.rec.AgentInstance(int(id))
+		if code != 200 || a == nil || a.Pivots.Parent != w.ses[p].A {
+			return nil, fmt.Errorf("SMB connect of %08x below %08x failed (HTTP %d)", id, ids[p], code)
+		}
+		w.ses = append(w.ses, &agentfx.Session{ID: id, Key: key, IV: iv, A: a})
 	}
 	w.rec.Take()
 	return w, nil
+}
+
+// chain returns the sessions from the directly connected agent down to agent g.
+func (w *world) chain(g int) []*agentfx.Session {
+	var c []*agentfx.Session
+	for x := g; x >= 0; x = w.parent[x] {
+		c = append([]*agentfx.Session{w.ses[x]}, c...)
+	}
+	return c
+}
+
+// root returns the index of the directly connected agent at the top of g's chain.
+func (w *world) root(g int) int {
+	for w.parent[g] >= 0 {
+		g = w.parent[g]
+	}
+	return g
+}
+
+// via returns the chain for a model entry of a task queued for agent g (nil when direct).
+func (w *world) via(g int) []*agentfx.Session {
+	if w.parent[g] < 0 {
+		return nil
+	}
+	return w.chain(g)
 }
 
 // batchInfo is what a check-in oracle reports back for classification.
@@ -441,6 +550,9 @@ func (w *world) checkIn(sub string, g int, ask bool) (batchInfo, *core.Violation
 // nothing more is handed out.
 func (w *world) drain(sub string) *core.Violation {
 	for g := range w.ses {
+		if w.parent[g] >= 0 {
+			continue
+		}
 		m := w.mod[g]
 		guard := 0
 		for !m.empty() {
